@@ -49,9 +49,9 @@ Print Assumptions audit_paths_complete.
    log is configured, the bytes decode, the id inside matches (or was absent) and the log's
    signature verdict on it is "valid" *)
 Theorem stored_only_if_log_signed :
-  forall H hlen strict idhash decode sig_ok sign (threads : list (list op)) tr id raw,
+  forall H hlen strict ch idhash decode sig_ok sign (threads : list (list op)) tr id raw,
   interleaving threads tr ->
-  lookup (run_state H hlen strict idhash decode sig_ok sign [] tr) id = Some raw ->
+  lookup (run_state H hlen strict ch idhash decode sig_ok sign [] tr) id = Some raw ->
   exists p h p0, parse idhash decode sig_ok raw id = inl p
     /\ idhash id = Some (Some h) /\ decode raw = Some p0 /\ sig_ok id p = true /\ p_logid p = h
     /\ p_size p = p_size p0 /\ p_root p = p_root p0.
@@ -60,24 +60,24 @@ Print Assumptions stored_only_if_log_signed.
 
 (* the sizes of the successive STHs held for a log never shrink (and a held STH is never lost) *)
 Theorem sizes_never_shrink :
-  forall H hlen strict idhash decode sig_ok sign (threads : list (list op)) tr earlier later id p1,
+  forall H hlen strict ch idhash decode sig_ok sign (threads : list (list op)) tr earlier later id p1,
   interleaving threads tr -> tr = earlier ++ later ->
-  held idhash decode sig_ok (run_state H hlen strict idhash decode sig_ok sign [] earlier) id = Some p1 ->
-  exists p2, held idhash decode sig_ok (run_state H hlen strict idhash decode sig_ok sign [] tr) id = Some p2
+  held idhash decode sig_ok (run_state H hlen strict ch idhash decode sig_ok sign [] earlier) id = Some p1 ->
+  exists p2, held idhash decode sig_ok (run_state H hlen strict ch idhash decode sig_ok sign [] tr) id = Some p2
     /\ p_size p1 <= p_size p2.
 Proof. exact sizes_never_shrink_lemma. Qed.
 Print Assumptions sizes_never_shrink.
 
 (* equal size implies equal root - in fact the identical row *)
 Theorem equal_size_equal_root :
-  forall H hlen strict idhash decode sig_ok sign (threads : list (list op)) tr earlier later id p1 p2,
+  forall H hlen strict ch idhash decode sig_ok sign (threads : list (list op)) tr earlier later id p1 p2,
   interleaving threads tr -> tr = earlier ++ later ->
-  held idhash decode sig_ok (run_state H hlen strict idhash decode sig_ok sign [] earlier) id = Some p1 ->
-  held idhash decode sig_ok (run_state H hlen strict idhash decode sig_ok sign [] tr) id = Some p2 ->
+  held idhash decode sig_ok (run_state H hlen strict ch idhash decode sig_ok sign [] earlier) id = Some p1 ->
+  held idhash decode sig_ok (run_state H hlen strict ch idhash decode sig_ok sign [] tr) id = Some p2 ->
   p_size p1 = p_size p2 ->
   p_root p1 = p_root p2 /\ p2 = p1
-  /\ lookup (run_state H hlen strict idhash decode sig_ok sign [] tr) id
-     = lookup (run_state H hlen strict idhash decode sig_ok sign [] earlier) id.
+  /\ lookup (run_state H hlen strict ch idhash decode sig_ok sign [] tr) id
+     = lookup (run_state H hlen strict ch idhash decode sig_ok sign [] earlier) id.
 Proof. exact equal_size_equal_root_lemma. Qed.
 Print Assumptions equal_size_equal_root.
 
@@ -99,7 +99,7 @@ Print Assumptions successor_extends_predecessor_patched.
    |t| = hlen+1 - although r1 is the root of d0,d1,d2 only if the two different strings
    x, y below collide.  For every H with hlen >= 1 and every four leaves. *)
 Theorem successor_extends_predecessor_refuted :
-  forall H hlen idhash decode sig_ok sign id raw3 raw4 (p3 p4 : psth) d0 d1 d2 d3,
+  forall H hlen ch idhash decode sig_ok sign id raw3 raw4 (p3 p4 : psth) d0 d1 d2 d3,
   (forall x, length (H x) = hlen) -> (1 <= hlen)%nat ->
   let leaves := [d0; d1; d2; d3] in
   let L := node_hash H (leaf_hash H d0) (leaf_hash H d1) in
@@ -108,19 +108,19 @@ Theorem successor_extends_predecessor_refuted :
   parse idhash decode sig_ok raw3 id = inl p3 -> p_size p3 = 3 -> p_root p3 = node_hash H L s ->
   parse idhash decode sig_ok raw4 id = inl p4 -> p_size p4 = 4 -> p_root p4 = mth H leaves ->
   let tr := [OUpdate id raw3 [] NoFault; OUpdate id raw4 [s; t; L] NoFault] in
-  held idhash decode sig_ok (run_state H hlen false idhash decode sig_ok sign [] [OUpdate id raw3 [] NoFault]) id = Some p3
-  /\ held idhash decode sig_ok (run_state H hlen false idhash decode sig_ok sign [] tr) id = Some p4
+  held idhash decode sig_ok (run_state H hlen false ch idhash decode sig_ok sign [] [OUpdate id raw3 [] NoFault]) id = Some p3
+  /\ held idhash decode sig_ok (run_state H hlen false ch idhash decode sig_ok sign [] tr) id = Some p4
   /\ (x01 :: L ++ s) <> (x01 :: L ++ leaf_hash H d2)
   /\ (p_root p3 = mth H (firstN (p_size p3) leaves) -> H (x01 :: L ++ s) = H (x01 :: L ++ leaf_hash H d2))
-  /\ held idhash decode sig_ok (run_state H hlen true idhash decode sig_ok sign [] tr) id = Some p3.
+  /\ held idhash decode sig_ok (run_state H hlen true ch idhash decode sig_ok sign [] tr) id = Some p3.
 Proof. exact successor_extends_predecessor_refuted_lemma. Qed.
 Print Assumptions successor_extends_predecessor_refuted.
 
 (* a refused update (any answer other than success) leaves the table unchanged; indeed the
    table changes only together with a cosigned success answer *)
 Theorem refusal_leaves_state :
-  forall H hlen strict idhash decode sig_ok sign st o st' b e,
-  step H hlen strict idhash decode sig_ok sign st o = (st', ORsp (b, e)) ->
+  forall H hlen strict ch idhash decode sig_ok sign st o st' b e,
+  step H hlen strict ch idhash decode sig_ok sign st o = (st', ORsp (b, e)) ->
   (e <> EOk -> st' = st) /\ (st' <> st -> e = EOk /\ exists p sg, b = BCosigned p sg).
 Proof. exact refusal_leaves_state_lemma. Qed.
 Print Assumptions refusal_leaves_state.
@@ -128,46 +128,47 @@ Print Assumptions refusal_leaves_state.
 (* refused as stale or inconsistent (FailedPrecondition): answered with the currently held
    row, which stays; and every stale / forked / unproved candidate IS refused that way *)
 Theorem stale_or_inconsistent_answered_with_held :
-  forall H hlen strict idhash decode sig_ok sign st id raw pf f st' b,
-  update H hlen strict idhash decode sig_ok sign st id raw pf f = (st', (b, EFailedPre)) ->
-  st' = st /\ exists heldRaw, lookup st id = Some heldRaw /\ b = BRaw heldRaw.
+  forall H hlen strict ch idhash decode sig_ok sign st id raw pf f st' b,
+  update H hlen strict ch idhash decode sig_ok sign st id raw pf f = (st', (b, EFailedPre)) ->
+  st' = st /\ exists heldRaw heldSTH, lookup st id = Some heldRaw /\ parse idhash decode sig_ok heldRaw id = inl heldSTH
+    /\ b = held_body ch sign heldRaw heldSTH.
 Proof. exact stale_or_inconsistent_answered_with_held_lemma. Qed.
 Print Assumptions stale_or_inconsistent_answered_with_held.
 
 Theorem stale_or_inconsistent_is_refused :
-  forall H hlen strict idhash decode sig_ok sign st id raw pf next prevRaw prev,
+  forall H hlen strict ch idhash decode sig_ok sign st id raw pf next prevRaw prev,
   parse idhash decode sig_ok raw id = inl next -> lookup st id = Some prevRaw ->
   parse idhash decode sig_ok prevRaw id = inl prev ->
   (p_size next < p_size prev
    \/ (p_size next = p_size prev /\ p_root next <> p_root prev)
    \/ (p_size prev < p_size next
        /\ verify_consistency H (p_size prev) (p_size next) pf (p_root prev) (p_root next) = false)) ->
-  update H hlen strict idhash decode sig_ok sign st id raw pf NoFault = (st, (BRaw prevRaw, EFailedPre)).
+  update H hlen strict ch idhash decode sig_ok sign st id raw pf NoFault = (st, (held_body ch sign prevRaw prev, EFailedPre)).
 Proof. exact refusal_characterised. Qed.
 Print Assumptions stale_or_inconsistent_is_refused.
 
 (* every cosignature verifies under the witness key over the TLS encoding of the STH it
    accompanies, and that STH is the one held for the log when the answer is produced *)
 Theorem cosignature_verifies :
-  forall H hlen strict idhash decode sig_ok sign verify (threads : list (list op)) tr before o after p sg e st',
+  forall H hlen strict ch idhash decode sig_ok sign verify (threads : list (list op)) tr before o after p sg e st',
   (forall m, verify m (sign m) = true) ->
   interleaving threads tr -> tr = before ++ o :: after ->
-  step H hlen strict idhash decode sig_ok sign (run_state H hlen strict idhash decode sig_ok sign [] before) o
+  step H hlen strict ch idhash decode sig_ok sign (run_state H hlen strict ch idhash decode sig_ok sign [] before) o
     = (st', ORsp (BCosigned p sg, e)) ->
-  e = EOk /\ verify (sth_enc p) sg = true /\ held idhash decode sig_ok st' (op_id o) = Some p.
+  (ch = false -> e = EOk) /\ verify (sth_enc p) sg = true /\ held idhash decode sig_ok st' (op_id o) = Some p.
 Proof. exact cosignature_verifies_lemma. Qed.
 Print Assumptions cosignature_verifies.
 
 (* progress: a correctly signed candidate with a verifying proof is stored and cosigned *)
 Theorem consistent_update_accepted :
-  forall H hlen strict idhash decode sig_ok sign st id raw pf next,
+  forall H hlen strict ch idhash decode sig_ok sign st id raw pf next,
   parse idhash decode sig_ok raw id = inl next ->
   (lookup st id = None \/
    exists prevRaw prev, lookup st id = Some prevRaw /\ parse idhash decode sig_ok prevRaw id = inl prev
      /\ p_size prev < p_size next
      /\ verify_consistency H (p_size prev) (p_size next) pf (p_root prev) (p_root next) = true
      /\ (strict = true -> forallb (sized_b hlen) pf = true)) ->
-  update H hlen strict idhash decode sig_ok sign st id raw pf NoFault = (store st id raw, (cosign sign next, EOk)).
+  update H hlen strict ch idhash decode sig_ok sign st id raw pf NoFault = (store st id raw, (cosign sign next, EOk)).
 Proof. exact acceptance_characterised. Qed.
 Print Assumptions consistent_update_accepted.
 
@@ -189,7 +190,7 @@ Module Toy.
   Definition verify (m s : bytes) : bool := bytes_eqb s (x2a :: m).
   Definition leaves : list bytes := [hex "0a"%string; hex "0b"%string; hex "0c"%string].
   Definition sth (n : N) (l : list bytes) : bytes := n2b n :: mth H l.
-  Definition run := run H 4 false idhash decode sig_ok sign [].
+  Definition run := run H 4 false false idhash decode sig_ok sign [].
   Definition fork : list bytes := [hex "0a"%string; hex "0d"%string; hex "0c"%string].
 End Toy.
 
